@@ -124,6 +124,14 @@ CHECKS = {
             "continues, other examples unchanged, counts exclude it), an accepted write keeps the dataset decodable.",
             "z3; real numpy/flatbuffers; concrete representative values per violation kind; <=3 writes quick / 4 thorough",
             "DESIGN.md 3/C18"),
+    "C06": ("symx+fsx",
+            "solver-driven exhaustive fork over crash points (every file-system effect of the session) and surviving prefixes, real writer killed by an FS interposer, real reader inspects",
+            "For first/continued/sub-directory/multi-writer sessions in fb and npz every numbered effect (open, each write, close, "
+            "replace, mkdir) is a crash point; after the crash every published metadata file is a complete document, the dataset "
+            "opens and iterates, reachable shards match their checksums, committed examples are all returned and nothing unwritten "
+            "is. The same states are the instants a concurrent reader can observe.",
+            "process crash only (no fsync claim); os.replace atomic; 3 surviving-prefix variants; tfrec file I/O not interposable",
+            "DESIGN.md 3/C06"),
 }
 
 PENDING_REASON = "check not built yet in this round (work in progress; see DESIGN.md section 3 for the planned encoding)"
